@@ -63,8 +63,18 @@ def _one(args):
     try:
         info, obs = _obligations(qualname, prop)
         ob = obs[idx]
-        v = discharge(ob, timeout_s, second_solver=second, pool_fallback=fallback)
+        canary = bool(ob.meta.get('canary'))
+        v = discharge(ob, min(timeout_s, 5) if canary else timeout_s, second_solver=second and not canary, pool_fallback=fallback and not canary)
         d = v.as_dict()
+        if ob.meta.get('canary'):
+            # inverted: proving False from the precondition means the contract is vacuous
+            if d['status'] == 'discharged':
+                d['status'], d['reason'] = 'crash', 'the precondition of the contract is contradictory: every obligation of %s would hold vacuously' % qualname
+            else:
+                d['status'], d['solver'] = 'discharged', d.get('solver', 'z3') + ' (canary: precondition satisfiable / not refuted)'
+                d.pop('reason', None)
+            d['qualname'] = qualname
+            return d
         d['qualname'] = qualname
         d['path'] = ob.meta.get('path')
         d['exception'] = ob.meta.get('exception')
